@@ -77,6 +77,11 @@ def pytree_cases(quick):
         (["tuple", [["arr", "a"], ["arr", "b"]]], lambda ok: ["tuple", [A((2,)), A((3,))]] if ok else ["tuple", [A((2,)), A((4,))]], 1),
         (["arr", "?n a"], lambda ok: A((5, 2)) if ok else A((5, 3)), 1),
         (["arr", "*w a"], lambda ok: A((4, 2)) if ok else A((4, 3)), 1),
+        # a union whose FIRST alternative binds an axis and then fails (the second one matches)
+        (["union", [["arr", "a 3"], ["arr", "b a"]]], lambda ok: A((2, 5)) if ok else A((2,)), 1),
+        (["union", [["arr", "c 3"], ["arr", "b c"]]], lambda ok: A((4, 4)) if ok else A((2, 3, 3)), 1),
+        # a structured PyTree as the leaf type of a structure-less one (S is looked at while flattening)
+        (["pytree", ["int"], "S"], lambda ok: ["tuple", [["lit", 1], ["lit", 2]]] if ok else ["tuple", [["lit", 1], ["lit", "x"]]], 1),
         (["arr", "*#w c"], lambda ok: A((1, 4, 6)) if ok else A((5, 6)), 1),
     ]
     structs = [None, "T", "S T", "T ...", "... T", "T U"]
